@@ -66,6 +66,16 @@ def generate(ctx, salt, nprog, features=None, ncalls=8, size=1.0, stats=None):
     return items, stats
 
 
+def raise_site(e):
+    """'file.py:function' of the innermost vyper frame of an exception (stable across message details)"""
+    import traceback
+    site = ""
+    for fr in traceback.extract_tb(e.__traceback__):
+        if "/vyper/" in fr.filename:
+            site = fr.filename.split("/vyper/", 1)[1] + ":" + fr.name
+    return site
+
+
 _ITEMS = None
 _CFGS = None
 
@@ -79,7 +89,7 @@ def _observe_one(args):
         obs = H.observe(it["prog"], cfg, it["calls"], it.get("src"), model_final=mf)
         return (i, j, "ok", obs, time.time() - t0)
     except Exception as e:
-        return (i, j, "exc", (type(e).__name__, str(e)[:400]), time.time() - t0)
+        return (i, j, "exc", (type(e).__name__, str(e)[:400], raise_site(e)), time.time() - t0)
 
 
 def observe_all(items, cfgs, procs=3):
